@@ -15,6 +15,8 @@ REQS = {
     "jwt": [{"schemes": ["jwt"], "scopes": ["r"]}],
     "oauth2": [{"schemes": ["oa"], "scopes": ["r", "w"]}],
     "jwt+apikey": [{"schemes": ["jwt", "key"], "scopes": ["r"]}],
+    "jwt0": [{"schemes": ["jwt"]}],                              # bearer schemes required WITHOUT scopes
+    "apikey+oauth20": [{"schemes": ["key", "oa"]}],
     "basic|apikey": [{"schemes": ["basic"]}, {"schemes": ["key"]}],
 }
 # values the probes send
@@ -162,13 +164,13 @@ def _method(d, s, m, shape):
     if shape in ("basic", "basic|apikey"):
         attrs.append({"name": "user", "type": {"kind": "string"}, "required": not alt, "sec": "username"})
         attrs.append({"name": "pass", "type": {"kind": "string"}, "required": not alt, "sec": "password"})
-    if shape in ("apikey", "jwt+apikey", "basic|apikey"):
+    if shape in ("apikey", "jwt+apikey", "basic|apikey", "apikey+oauth20"):
         attrs.append({"name": "key", "type": {"kind": "string"}, "required": not alt, "sec": "apikey:key"})
         http["headers"]["key"] = "X-Key"
-    if shape in ("jwt", "jwt+apikey"):
+    if shape in ("jwt", "jwt+apikey", "jwt0"):
         attrs.append({"name": "token", "type": {"kind": "string"}, "required": True, "sec": "token"})
         http["headers"]["token"] = "Authorization"
-    if shape == "oauth2":
+    if shape in ("oauth2", "apikey+oauth20"):
         attrs.append({"name": "access", "type": {"kind": "string"}, "required": True, "sec": "accesstoken"})
         http["headers"]["access"] = "Authorization"
     gm = {"name": m["name"], "http": http}
@@ -207,9 +209,9 @@ def _raw(verb, segs, m, shape, omit=None):
         headers["Content-Type"] = ["application/json"]
     if shape in ("basic", "basic|apikey"):
         headers["Authorization"] = ["Basic " + base64.b64encode(b"u:p").decode()]
-    if shape in ("jwt", "jwt+apikey", "oauth2"):
+    if shape in ("jwt", "jwt+apikey", "oauth2", "jwt0", "apikey+oauth20"):
         headers["Authorization"] = ["Bearer tok"]
-    if shape in ("apikey", "jwt+apikey", "basic|apikey") and omit != "X-Key":
+    if shape in ("apikey", "jwt+apikey", "basic|apikey", "apikey+oauth20") and omit != "X-Key":
         headers["X-Key"] = ["k1"]
     if cookies:
         headers["Cookie"] = ["; ".join(cookies)]
@@ -224,7 +226,7 @@ def sent_values(d, s, m, shape):
             out[seg["s"]] = ("path", seg["s"], PATHVAL.get(seg["s"], "xv"))
     for p in m["params"]:
         out[ATTR_OF[p["name"]]] = (p["in"], p["name"], QVAL if p["in"] == "query" else (HVAL if p["in"] == "header" else CVAL))
-    if shape in ("apikey", "jwt+apikey", "basic|apikey"):
+    if shape in ("apikey", "jwt+apikey", "basic|apikey", "apikey+oauth20"):
         out["key"] = ("header", "X-Key", "k1")
     return out
 
@@ -250,7 +252,7 @@ def probes(di, d, eff, deny=None, only_full=False):
                 scn.append(dict(base, id=rid + "#full", raw=_raw(r["verb"], full, m, shape), outcome=okval))
                 if only_full:
                     continue
-                names = [p["name"] for p in m["params"]] + (["X-Key"] if shape in ("apikey", "jwt+apikey", "basic|apikey") else [])
+                names = [p["name"] for p in m["params"]] + (["X-Key"] if shape in ("apikey", "jwt+apikey", "basic|apikey", "apikey+oauth20") else [])
                 for n in names:
                     scn.append(dict(base, id=rid + "#minus:" + n, raw=_raw(r["verb"], full, m, shape, omit=n), outcome=okval))
                 if tagged:
